@@ -14,8 +14,8 @@ def rust_str(lit):
 
 
 def extract(g, X):
-    file_rs = X.strip_comments(X.read("pdf/src/file.rs"))
-    xref_rs = X.strip_comments(X.read("pdf/src/xref.rs"))
+    file_rs = X.source("pdf/src/file.rs")
+    xref_rs = X.source("pdf/src/xref.rs")
 
     def save_size():
         b = X.fn_body(file_rs, "save")
@@ -148,7 +148,7 @@ def extract(g, X):
               "xref.rs:write_stream", write_stream)
 
     def byte_len():
-        b = X.fn_body(xref_rs, "byte_len")
+        b = X.fn_body(X.source("pdf/src/xref.rs", fold=False), "byte_len")     # the formula's own constants, unfolded
         m = re.search(r"\((\d+)\s*\+\s*(\d+)\s*-\s*(\d+)\s*-\s*n\.leading_zeros\(\)\)\s*as\s+usize\s*/\s*(\d+)\s*\+\s*\(n\s*==\s*(\d+)\)\s*as\s+usize", b)
         return cbytes([int(x) for x in m.groups()])
     g.attempt([("sto_byte_len_consts", "list N")], "xref.rs:byte_len", byte_len)
